@@ -6,14 +6,16 @@ From Verif.Model Require Import Result Tolerance.
 From Verif.Gen Require Tolerance.
 Import ListNotations.
 
+(* The proofs tolerate harmless rewritings of the source (renamed locals, `not (a > b)` for `a <= b`, nesting of
+   the two `if`s); anything that changes the decision makes them fail. *)
 Lemma percentage_bridge : forall t, Gen.Tolerance.gen_percentage_as_number t = percentage_as_number t.
 Proof. reflexivity. Qed.
 
 Lemma within_tolerance_bridge : forall x y t,
   Gen.Tolerance.gen_within_tolerance x y t = within_tolerance x y t.
 Proof.
-  intros x y t. unfold Gen.Tolerance.gen_within_tolerance, within_tolerance.
-  cbv zeta.
+  intros x y t. unfold Gen.Tolerance.gen_within_tolerance, within_tolerance, n_lt.
+  cbv zeta. rewrite ?negb_involutive.
   destruct (v_is_number x);
     destruct (v_eqb x v_pinf || v_eqb y v_pinf || v_eqb x (v_neg v_pinf) || v_eqb y (v_neg v_pinf)); reflexivity.
 Qed.
